@@ -209,7 +209,38 @@ def r19_3_set(ctx):
                 ok = sound(V, T)
             if not ok:
                 unsound.append((V, T))
+    # sequences of element values: every element is checked, also a later one of an already seen Python class
+    elem_cases = [
+        (("sarr", ("uint", 8), 4), [("sarr", ("uint", 8), 8), ("sarr", ("uint", 16), 4), ("sarr", ("byte",), 4), ("darr", ("uint", 8))]),
+        (("tuple", (("uint", 64), ("bool",))), [("tuple", (("uint", 8), ("uint", 8))), ("tuple", (("uint", 64), ("uint", 64))), ("tuple", (("uint", 64),))]),
+        (("uint", 16), [("uint", 8), ("uint", 64), ("bool",)]),
+        (("darr", ("uint", 8)), [("darr", ("uint", 16)), ("darr", ("bool",)), ("string",)]),
+        (("string",), [("darr", ("bool",)), ("bytes_dyn",), ("darr", ("uint", 16))]),
+    ]
+    for E_, others in elem_cases:
+        for container in (("sarr", E_, 2), ("darr", E_), ("sarr", E_, 3)):
+            n_el = container[2] if container[0] == "sarr" else 2
+            for V in others:
+                for pos in range(n_el):
+                    kinds = [E_] * n_el
+                    kinds[pos] = V
+                    try:
+                        t = W.spec(container).methods["new_instance"]()
+                        vals = [W.spec(k).methods["new_instance"]() for k in kinds]
+                    except Raised as r:
+                        raise AnalysisError(f"R19.3: cannot build values for {arc4.sig(container)}: {r.exc_text[:60]}")
+                    n += 1
+                    try:
+                        t.methods["set"](vals)
+                    except Raised:
+                        continue
+                    acc += 1
+                    if not sound(V, E_):
+                        unsound.append((("seq", tuple(kinds)), container))
     c = ctx.model.find_class("BaseType", "pyteal.ast.abi.type")
+    for V, T in [x for x in unsound if x[0][0] == "seq"][:4]:
+        ctx.bad("R19.3", f"set[{arc4.sig(T)} <- [{', '.join(arc4.sig(k) for k in V[1])}]]", f"{arc4.sig(T)}.set([{', '.join(arc4.sig(k) for k in V[1])}]) is accepted although an element is not of the element type {arc4.sig(arc4.elem(T))}: the array body gets the wrong length or the wrong bytes", ctx.model.find_class("Array", "pyteal.ast.abi.array_base").where)
+    unsound = [x for x in unsound if x[0][0] != "seq"] + [x for x in unsound if x[0][0] == "seq"][:0]
     for V, T in unsound[:8]:
         ctx.bad("R19.3", f"set[{arc4.sig(T)} <- {arc4.sig(V)}]", f"{arc4.sig(T)}.set(<{arc4.sig(V)}>) is accepted but the ARC-4 layouts differ ({arc4.layout(V)} vs {arc4.layout(T)}): the copied bytes are not an encoding of {arc4.sig(T)}", ctx.model.find_class(arc4.class_of(T).replace("TypeSpec", "")).where if ctx.model.try_class(arc4.class_of(T).replace("TypeSpec", "")) else c.where)
     ctx.instances["R19.3"] = ctx.instances.get("R19.3", 0) + n
@@ -218,10 +249,124 @@ def r19_3_set(ctx):
     ctx.require_min("R19.3", 500)
 
 
+def r19_5_signature_types(ctx):
+    from rules.abicommon import AbiWorld
+
+    ctx.rule("R19.5", "types named in a method signature: type_spec_from_algosdk maps every ARC-4 type (all uint widths 8..512, byte, bool, string, address, arrays, tuples, reference and transaction names) to the PyTeal type spec with the same signature string and static length, or refuses it - a wider or narrower integer is never substituted")
+    f = ctx.model.find_func("type_spec_from_algosdk", "pyteal.ast.abi.util")
+    ctx.analysed(f.fq)
+    W = AbiWorld(ctx)
+
+    def sdk(kind, **attrs):
+        return Sym(f"sdk:{kind}", attrs={"$isa": {"ABIType", kind}, **attrs})
+
+    def uint(n):
+        return sdk("UintType", bit_size=n)
+
+    refs = {"account", "asset", "application"}
+    txns = set(arc4.TXN_KINDS)
+    abi_mod = Sym("algosdk.abi", methods={"is_abi_reference_type": lambda t: t in refs, "is_abi_transaction_type": lambda t: t in txns})
+    algosdk = Sym("algosdk", attrs={"abi": abi_mod})
+
+    def extra(e, me):
+        t = u(e)
+        if t == "algosdk":
+            return algosdk
+        if t == "ReferenceTypeSpecs":
+            return [W.spec(("ref", k)) for k in arc4.REF_KINDS]
+        if t == "TransactionTypeSpecs":
+            return [W.spec(("txn", k)) for k in arc4.TXN_KINDS]
+        raise Unknown()
+
+    resolver = lambda nm: f.node if nm == "type_spec_from_algosdk" else W.resolver(nm)
+    cases = []
+    for n in list(range(8, 72, 8)) + [128, 256, 512]:
+        cases.append((f"uint{n}", uint(n), f"uint{n}", n // 8))
+    cases += [("byte", sdk("ByteType"), "byte", 1), ("bool", sdk("BoolType"), "bool", 1), ("string", sdk("StringType"), "string", None), ("address", sdk("AddressType"), "address", 32), ("ufixed64x2", sdk("UfixedType", bit_size=64, precision=2), None, None)]
+    for n in (8, 24, 32, 40, 64):
+        cases.append((f"uint{n}[]", sdk("ArrayDynamicType", child_type=uint(n)), f"uint{n}[]", None))
+        cases.append((f"uint{n}[3]", sdk("ArrayStaticType", child_type=uint(n), static_length=3), f"uint{n}[3]", 3 * n // 8))
+        cases.append((f"(uint{n},bool)", sdk("TupleType", child_types=[uint(n), sdk("BoolType")]), f"(uint{n},bool)", n // 8 + 1))
+    for name in sorted(refs | txns | {"bogus"}):
+        cases.append((name, name, name if name != "bogus" else None, None))
+    supported = {8, 16, 32, 64}
+    import re as _re
+
+    for label, inp, want_sig, want_len in cases:
+        widths = [int(x) for x in _re.findall(r"uint(\d+)", label)]
+        must_refuse = want_sig is None or any(w not in supported for w in widths)
+        try:
+            from sa.minieval import run_function as _rf
+
+            val, _ = _rf(f.node, {"t": inp}, W.oracle(extra), f.fq, permissive=True, resolver=resolver, setup=W.setup)
+            got_sig = val.methods["__str__"]() if isinstance(val, Sym) and "__str__" in val.methods else repr(val)
+            try:
+                got_len = val.methods["byte_length_static"]() if want_len is not None else None
+            except Raised:
+                got_len = "raises"
+            if must_refuse:
+                ok, why = False, f"is accepted as {got_sig}; PyTeal has no type with this layout, so it must be refused"
+            else:
+                ok = got_sig == want_sig and got_len == want_len
+                why = f"becomes {got_sig} ({got_len} byte(s)); the signature says {want_sig} ({want_len} byte(s))"
+        except Raised as r:
+            ok = must_refuse and any(k in r.exc_text for k in ("TealInputError", "TealTypeError"))
+            why = f"is refused with {r.exc_text[:50]}" + ("" if must_refuse else "; PyTeal supports this type")
+        ctx.check(ok, "R19.5", f"type_spec_from_algosdk[{label}]", f"`{label}` {why}", f.where, fact={"refused": must_refuse})
+    ctx.require_min("R19.5", 35)
+
+
+def r19_4_spec_equality(ctx):
+    from rules.abicommon import AbiWorld
+    from sa.minieval import run_function as _rf
+
+    ctx.rule("R19.4", "type spec equality (which the relation, Array.set, String.set and the tuple/array element setters fall back on) is identity of shape: over all ordered pairs of a universe of the repository's own type spec objects - including NamedTuple classes produced by one factory (same module and qualified name, different fields) - a == a holds, a == b implies equal ARC-4 layout, and two NamedTuple specs are equal only for the same class; and the real relation is sound on that universe")
+    W = AbiWorld(ctx)
+    uni = [("bool",), ("byte",), ("uint", 8), ("uint", 16), ("uint", 64), ("address",), ("string",), ("bytes_dyn",), ("bytes_static", 32), ("bytes_static", 3),
+           ("sarr", ("uint", 8), 3), ("sarr", ("uint", 8), 32), ("sarr", ("byte",), 3), ("darr", ("uint", 8)), ("darr", ("byte",)), ("darr", ("bool",)), ("darr", ("uint", 64)),
+           ("tuple", (("uint", 8), ("uint", 8))), ("tuple", (("uint", 64), ("uint", 64))), ("tuple", (("uint", 64),)), ("tuple", ()),
+           ("ntuple", "Pair1", (("uint", 8), ("uint", 8))), ("ntuple", "Pair2", (("uint", 64), ("uint", 64))), ("ntuple", "Pair3", (("uint", 8), ("uint", 8))), ("ntuple", "Other", (("uint", 8), ("uint", 8))),
+           ("sarr", ("ntuple", "Pair1", (("uint", 8), ("uint", 8))), 2), ("sarr", ("ntuple", "Pair2", (("uint", 64), ("uint", 64))), 2),
+           ("txn", "pay"), ("txn", "txn"), ("ref", "account"), ("ref", "asset")]
+    f = ctx.model.find_func("type_spec_is_assignable_to", "pyteal.ast.abi.util")
+    ctx.analysed(f.fq, "pyteal.ast.abi.tuple.NamedTupleTypeSpec.__eq__", "pyteal.ast.abi.tuple.TupleTypeSpec.__eq__", "pyteal.ast.abi.array_static.StaticArrayTypeSpec.__eq__")
+    specs = [W.spec(s) for s in uni]
+    wrong_eq, unsound, n = [], [], 0
+    for i, a in enumerate(uni):
+        for j, b in enumerate(uni):
+            n += 1
+            try:
+                eq = bool(specs[i].methods["__eq__"](specs[j])) if "__eq__" in specs[i].methods else (specs[i] is specs[j])
+            except Raised as r:
+                wrong_eq.append((a, b, f"raises {r.exc_text[:40]}"))
+                continue
+            both_named = a[0] == "ntuple" and b[0] == "ntuple"
+            if a == b and not eq:
+                wrong_eq.append((a, b, "is False although it is the same type"))
+            elif eq and (not sound(a, b) or (both_named and a != b)):
+                wrong_eq.append((a, b, "is True although " + ("they are different NamedTuple classes" if both_named and sound(a, b) else f"the layouts differ ({arc4.layout(a)} vs {arc4.layout(b)})")))
+            try:
+                rel, _ = _rf(f.node, {"a": specs[i], "b": specs[j]}, W.oracle(), f.fq, permissive=True, resolver=lambda nm: f.node if nm == "type_spec_is_assignable_to" else W.resolver(nm), setup=W.setup)
+            except Raised:
+                rel = False
+            if rel and not sound(a, b):
+                unsound.append((a, b))
+    name = lambda s: (s[1] + arc4.sig(s)) if s[0] == "ntuple" else arc4.sig(s)
+    for a, b, what in wrong_eq[:6]:
+        ctx.bad("R19.4", f"eq[{name(a)} == {name(b)}]", f"{name(a)} == {name(b)} {what}", ctx.model.find_class(arc4.class_of(a)).where)
+    for a, b in unsound[:6]:
+        ctx.bad("R19.4", f"assignable[{name(a)} -> {name(b)}]", f"a value of type {name(a)} is accepted where {name(b)} is expected, but the layouts differ ({arc4.layout(a)} vs {arc4.layout(b)})", f.where)
+    ctx.instances["R19.4"] = ctx.instances.get("R19.4", 0) + n
+    ctx.ok("R19.4", "universe", {"specs": len(uni), "pairs": n, "eq_mismatches": len(wrong_eq), "unsound": len(unsound)}, f.where)
+    ctx.require_min("R19.4", 900)
+
+
 def run(ctx):
     r19_1_relation(ctx)
     r19_2_callers(ctx)
     r19_3_set(ctx)
+    r19_5_signature_types(ctx)
+    r19_4_spec_equality(ctx)
     return (
         "Finite abstract evaluation of type_spec_is_assignable_to over every ordered pair of a bounded universe of nested ARC-4 shapes (class membership from the repository's "
         "own hierarchy) against ARC-4 layout classes; documented table; callers check the relation in the right direction before passing storage. Equality of encodings of "
